@@ -21,15 +21,21 @@ import numpy as np
 
 from vf import core
 from vf.core import fs, fl, frac
+from extract import uniform_grid as extract_uniform_grid
 
 RULE = ('a case is one operation (props, index, getitem, insert, append, squeeze, byaxis, uniform, '
-        'fromintv, fromgrid, nonuniform) on one generated partition / parameter set. Non-trivial = '
+        'fromintv, fromgrid, nonuniform) on one generated partition / parameter set, or one partition '
+        'observed after a history (2-3 partitions built on one SHARED RectGrid object over different '
+        'domains, optionally one more sharing the IntervalProd object, and 7-17 interleaved queries, '
+        'each of which must equal the answer of a freshly built equal partition). Non-trivial = '
         'the real code returned a result (not an exception) on a partition with at least 2 cells '
         'in total. distinct = distinct (operation, stream, ndim, shape class per axis (1, 2, 3+), '
         'uniform/non-uniform, per-side nodes-on-boundary flags, operation-specific class: kind of '
         'index expression / position class of the point / which parameters were given) signatures '
         'among non-trivial cases.')
-TRUSTED = ['NumPy slicing, integer-array indexing, np.linspace, np.searchsorted (modelled by their '
+TRUSTED = ['translator tools/extract/uniform_grid.py (AST of the (bdry_l, bdry_r) node-placement chain of '
+           'uniform_grid_fromintv -> Gen/UniformGrid.lean)',
+           'NumPy slicing, integer-array indexing, np.linspace, np.searchsorted (modelled by their '
            'specification: Python slice.indices, index wrap-around, lo + i*step, first index with '
            'v <= a[k])']
 ASSUMPTIONS = ['floating-point rounding is outside the model: the exact stream uses dyadic inputs so '
@@ -1037,6 +1043,162 @@ def run_nonuniform(cs, mins, maxs, flags, fpy, fw, fcls, exact, rp):
 
 
 # ---------------------------------------------------------------------------
+# history stream: shared grid / set objects, repeated and interleaved queries.
+# Every answer must be the one a freshly built partition (fresh grid, fresh set, first query)
+# gives: partitions are immutable values, nothing may depend on what was asked before.
+
+QUERIES = ['cell_sides', 'cell_volume', 'cell_sizes_vecs', 'cell_boundary_vecs',
+           'boundary_cell_fractions', 'nodes_on_bdry_byaxis', 'grid.stride', 'grid.extent',
+           'grid.min_pt', 'grid.max_pt', 'extent', 'min_pt', 'max_pt', 'coord_vectors', 'is_uniform',
+           'has_isotropic_cells', 'set.volume', 'grid.mid_pt', 'mid_pt', 'index.mid',
+           'sub0.cell_sides', 'squeeze.cell_sides', 'byaxis0.cell_sides', 'repr']
+
+
+def canon(v):
+    """JSON-able exact rendering of a query result."""
+    if isinstance(v, (tuple, list)):
+        return [canon(x) for x in v]
+    if isinstance(v, np.ndarray):
+        return [canon(x) for x in v.tolist()]
+    if isinstance(v, (bool, np.bool_)):
+        return bool(v)
+    if isinstance(v, str):
+        return v
+    if isinstance(v, (int, np.integer)):
+        return int(v)
+    x = float(v)
+    return 'nan' if x != x else fs(x)
+
+
+def query(p, name):
+    if name == 'cell_sides':
+        return canon(p.cell_sides)
+    if name == 'cell_volume':
+        return canon(p.cell_volume)
+    if name in ('cell_sizes_vecs', 'cell_boundary_vecs', 'boundary_cell_fractions',
+                'nodes_on_bdry_byaxis', 'extent', 'min_pt', 'max_pt', 'coord_vectors', 'is_uniform',
+                'has_isotropic_cells', 'mid_pt'):
+        return canon(getattr(p, name))
+    if name.startswith('grid.'):
+        return canon(getattr(p.grid, name[5:]))
+    if name == 'set.volume':
+        return canon(p.set.volume)
+    if name == 'index.mid':
+        i = p.index(p.mid_pt if p.ndim > 1 else float(p.mid_pt[0]))
+        return canon(i)
+    if name == 'sub0.cell_sides':
+        return canon(p[0].cell_sides)
+    if name == 'squeeze.cell_sides':
+        return canon(p.squeeze().cell_sides)
+    if name == 'byaxis0.cell_sides':
+        return canon(p.byaxis[0].cell_sides)
+    if name == 'repr':
+        return repr(p)
+    raise KeyError(name)
+
+
+def gen_history(rng):
+    """A shared grid (often with a length-1 axis), 2-3 partitions of DIFFERENT domains on it (plus one
+    pair sharing the IntervalProd object instead), and an interleaved script of queries."""
+    nd = rng.choice([1, 2, 2, 3])
+    cs = []
+    for ax in range(nd):
+        c, lo, hi, tag = gen_axis(rng, True)
+        if rng.random() < 0.45:
+            c = [dy(rng)]
+        cs.append(c)
+    doms = []
+    for k in range(rng.choice([2, 2, 3])):
+        lo, hi = [], []
+        for c in cs:
+            ml = rng.choice([0, F(1, 8), F(1, 4), F(1, 2), 1, 2])
+            mr = rng.choice([0, F(1, 8), F(1, 4), F(1, 2), 1, F(3, 2)])
+            if len(c) > 1 and rng.random() < 0.4:
+                ml, mr = (c[1] - c[0]) / 2, (c[-1] - c[-2]) / 2
+            lo.append(c[0] - ml)
+            hi.append(c[-1] + mr)
+        doms.append((lo, hi))
+    how = [rng.choice(['ctor', 'fromgrid']) for _ in doms]
+    script = [(rng.randrange(len(doms)), rng.choice(QUERIES)) for _ in range(rng.randint(4, 14))]
+    # make sure the interesting pattern (same query on two partitions of the shared grid) occurs
+    q = rng.choice(['cell_sides', 'cell_volume', 'cell_sizes_vecs', 'grid.stride'])
+    a, b = rng.sample(range(len(doms)), 2)
+    script += [(a, q), (b, q), (a, q)]
+    return {'op': 'history', 'c': [[fs(v) for v in c] for c in cs],
+            'doms': [([fs(v) for v in lo], [fs(v) for v in hi]) for lo, hi in doms],
+            'how': how, 'script': [[k, q] for k, q in script], 'share_set': rng.random() < 0.3,
+            'exact': True}
+
+
+def run_history(rp):
+    """Returns a list of Cases (one `props` comparison per partition, observed AFTER the history)
+    carrying the history-dependence problems."""
+    import odl
+    cs = [[core.pfrac(v) for v in c] for c in rp['c']]
+    doms = [([core.pfrac(v) for v in lo], [core.pfrac(v) for v in hi]) for lo, hi in rp['doms']]
+    descs = [{'c': cs, 'lo': lo, 'hi': hi} for lo, hi in doms]
+
+    def mk(k, grid, sets):
+        lo, hi = doms[k]
+        if rp['how'][k] == 'fromgrid':
+            return odl.uniform_partition_fromgrid(grid, min_pt=[float(v) for v in lo],
+                                                  max_pt=[float(v) for v in hi])
+        return odl.RectPartition(sets[k], grid)
+
+    def fresh(k):
+        lo, hi = doms[k]
+        grid = odl.RectGrid(*[[float(v) for v in c] for c in cs])
+        return mk(k, grid, {k: odl.IntervalProd([float(v) for v in lo], [float(v) for v in hi])})
+
+    def setup():
+        grid = odl.RectGrid(*[[float(v) for v in c] for c in cs])
+        sets = {k: odl.IntervalProd([float(v) for v in lo], [float(v) for v in hi])
+                for k, (lo, hi) in enumerate(doms)}
+        parts = [mk(k, grid, sets) for k in range(len(doms))]
+        if rp.get('share_set'):
+            # a further partition on the SAME IntervalProd object as partition 0, own grid
+            parts.append(odl.RectPartition(sets[0], odl.RectGrid(*[[float(v) for v in c] for c in cs])))
+        return parts
+    parts, err = guarded(setup)
+    if parts is None:
+        return [Case('history', 'props ' + wire_part(descs[0]), None,
+                     [('constructor', 'valid partitions on a shared grid rejected: ' + err)], None, rp, True)]
+    problems = []
+    done = []
+    for step, (k, q) in enumerate(rp['script']):
+        got, e1 = guarded(lambda: query(parts[k], q))
+        exp, e2 = guarded(lambda: query(fresh(k), q))
+        done.append('p{}.{}'.format(k, q))
+        if got != exp or (e1 is None) != (e2 is None):
+            problems.append(('{} depends on earlier queries / shared objects'.format(q),
+                             'shared grid c={} with partitions {}: after [{}] the query p{}.{} gives {} but a '
+                             'freshly built equal partition gives {}'.format(
+                                 ';'.join(fl(c) for c in cs),
+                                 ', '.join('p{}=[{}..{}]'.format(i, fl(lo), fl(hi)) for i, (lo, hi) in enumerate(doms)),
+                                 ', '.join(done[:-1]), k, q, got if e1 is None else 'raised ' + e1,
+                                 exp if e2 is None else 'raised ' + e2)))
+            break
+    out = []
+    n_sc = len(rp['script'])
+    for k, desc in enumerate(descs):
+        props, err = guarded(lambda: real_props(parts[k]))
+        line = 'props ' + wire_part(desc)
+        if props is None:
+            out.append(Case('history', line, None, [('properties raise after history', err)], None, rp, True))
+            continue
+        probs = [('after history: ' + key, msg) for key, msg in oracle_props(desc, props, True)]
+        if rp.get('share_set') and k == 0:
+            p2, e = guarded(lambda: real_props(parts[-1]))
+            if p2 != props:
+                probs.append(('partitions sharing one IntervalProd differ', '{} vs {}'.format(props, p2)[:300]))
+        sig = ('history', len(cs), shape_class(desc), tuple(rp['how']), bool(rp.get('share_set')),
+               min(n_sc // 4, 4)) if k == 0 else None
+        out.append(Case('history', line, props, (problems if k == 0 else []) + probs, sig, rp, True,
+                        scale_of(desc), kind='props'))
+    return out
+
+
+# ---------------------------------------------------------------------------
 # comparison with the model
 
 def compare(ctx, case, ans):
@@ -1104,16 +1266,25 @@ def compare(ctx, case, ans):
 
 # ---------------------------------------------------------------------------
 
+def regenerate(ctx):
+    changed = extract_uniform_grid.regenerate()
+    return [('extract(uniform_grid_fromintv node-placement table -> Gen/UniformGrid.lean)', True,
+             'regenerated' if changed else 'unchanged')]
+
+
 def gen_cases(ctx, budget):
     """Yield `budget` cases over all operations, exact and general stream."""
     rng = ctx.rng
     ops = ['props'] * 4 + ['index'] * 5 + ['getitem'] * 7 + ['insert', 'append', 'squeeze', 'squeeze',
                                                              'byaxis', 'byaxis'] + \
-          ['uniform'] * 5 + ['fromintv'] * 3 + ['fromgrid'] * 2 + ['nonuniform'] * 3
+          ['uniform'] * 5 + ['fromintv'] * 3 + ['fromgrid'] * 2 + ['nonuniform'] * 3 + ['history'] * 2
     for _ in range(budget):
         op = rng.choice(ops)
         exact = rng.random() < 0.75
-        if op == 'props':
+        if op == 'history':
+            for c in run_history(gen_history(rng)):
+                yield c
+        elif op == 'props':
             yield case_props(gen_desc(rng, exact), exact)
         elif op == 'index':
             yield case_index(rng, gen_desc(rng, exact), exact, outside=rng.random() < 0.08)
@@ -1192,6 +1363,9 @@ def search(ctx, broken):
 def replay(ctx, rp):
     op = rp['op']
     exact = rp.get('exact', True)
+    if op == 'history':
+        probs = [(k, m) for c in run_history(rp) for k, m in c.problems if rp.get('key') in (None, k)]
+        return '; '.join('{}: {}'.format(k, m) for k, m in probs) if probs else None
     if op == 'props':
         c = case_props(desc_unjson(rp['part']), exact)
     elif op == 'index':
